@@ -429,6 +429,41 @@ class SqlCon:
 
 
 
+class ReadAheadView:
+    """io.BufferedReader(raw, buffer_size=N) over a stream that RAISES at its end (a decompressor over a file without end-of-stream marker): the buffer is
+    filled by reading ahead up to N bytes; when the underlying stream raises during a fill, the bytes obtained in that fill are lost and the error reaches the
+    caller (assumed contract of io.BufferedReader; only the case 'fewer than N bytes are left when the first fill starts' is modelled)."""
+
+    def __init__(self, it, raw, buffer_size):
+        note("io.BufferedReader", "a read-ahead buffer in front of a stream that raises at its end loses the bytes of the fill during which the error is raised")
+        self.it, self.raw, self.n, self.filled = it, raw, buffer_size, False
+        self.mode = getattr(raw, "mode", "rb")
+
+    def read(self, n=-1):
+        from .files import length_of
+
+        if not self.filled:
+            self.filled = True
+            total = 0
+            for v in self.raw.remaining():
+                total = total + length_of(v)
+            if isinstance(total, int):
+                if total >= self.n:
+                    raise Unsupported("read-ahead buffer smaller than what is left of the stream")
+            else:
+                self.it.assume(total < self.n)  # (only streams shorter than the buffer are considered from here on: the modelled case)
+            raise PyRaise(self.raw.eof_raises)  # the fill wants n bytes, the stream ends (raising) first: what it had delivered is gone
+        raise PyRaise(self.raw.eof_raises)
+
+    def peek(self, n=0):
+        return self.raw.peek(n)
+
+    def close(self):
+        return self.raw.close()
+
+    closed = property(lambda self: self.raw.closed)
+
+
 # ------------------------------------------------------------------------------------------------------------------ compression codecs
 CODEC_MAGIC = {"gzip": b"\x1f\x8b", "bz2": b"BZh", "lz4": b"\x04\x22\x4d\x18", "zstd": b"\x28\xb5\x2f\xfd"}  # the published leading bytes of each format
 
@@ -463,6 +498,9 @@ def codec_open(it, codec, target, mode="rb"):
         raise PyRaise(OSError(f"Not a {codec} file"))
     inner = AbsFile(it, rest[1:], name=getattr(fp, "name", "fp"), mode=mode)
     inner.outer = fp
+    if getattr(fp, "codec_truncated", False):
+        # the compressed file lacks its end-of-stream marker (cut at a flush point): the decompressor hands out what was flushed, then raises EOFError
+        inner.eof_raises = EOFError("Compressed file ended before the end-of-stream marker was reached")
     return inner
 
 
@@ -572,6 +610,8 @@ def install(it):
     import io as _io
 
     def m_buffered_reader(it_, raw, *a, **k):
+        if getattr(raw, "eof_raises", None) is not None:
+            return ReadAheadView(it_, raw, k.get("buffer_size", a[0] if a else 8192))
         if type(raw).__name__ == "AbsRawFile":
             # a buffered (peekable) view that starts at the raw file's current position; the raw file is read through it from now on
             from .files import AbsFile as _AF
@@ -635,6 +675,8 @@ def install(it):
         if not isinstance(cur, AbsFile):
             raise Unsupported("open() of a database path")
         r = AbsFile(it_, cur.content(), name=p, mode=mode)
+        if "codec_truncated" in cur.__dict__:
+            r.codec_truncated = cur.codec_truncated  # (a property of what is on disk, not of the handle)
         r.newline = newline
         for extra in ("csv_rows",):
             if hasattr(cur, extra):
